@@ -54,6 +54,8 @@ SPECS = [
     "rtc_listen_go=p2p/transport/webrtc/listener.go:listener.listen#go0",
     "rtc_dial=p2p/transport/webrtc/transport.go:WebRTCTransport.Dial",
     "rtc_dial_inner=p2p/transport/webrtc/transport.go:WebRTCTransport.dial",
+    "ws_serve=p2p/transport/websocket/listener.go:listener.ServeHTTP",
+    "ws_netaccept=p2p/transport/websocket/listener.go:httpNetListener.Accept",
 ]
 
 
